@@ -67,8 +67,10 @@ package phase0
 //@   property C01
 //@   use reg_len_nonneg, exq_count_zero
 //@   requires spec != nil && epc != nil && state != nil && epc.CurrentEpoch != nil && spec.CHURN_LIMIT_QUOTIENT != 0
-//@   assigns ghost(n_viter), ghost(viter_pos), ghost(viter_reg), ghost(n_val_write), ghost(n_set_exit), ghost(set_exit_v), ghost(set_exit_val), ghost(n_set_wd), ghost(set_wd_v), ghost(set_wd_val)
+//@   assigns ghost(n_viter), ghost(viter_pos), ghost(viter_reg), ghost(n_val_write), ghost(n_wd_write), ghost(n_set_exit), ghost(set_exit_v), ghost(set_exit_val), ghost(n_set_wd), ghost(set_wd_v), ghost(set_wd_val)
 //@   ensures already: err == nil && old(v_exit(n_val_write, reg_val(st_vals(state), index))) != common.FAR_FUTURE_EPOCH ==> n_val_write == old(n_val_write) && n_set_exit == old(n_set_exit) && n_set_wd == old(n_set_wd)
+//@   ensures already_wd: err == nil && old(v_exit(n_val_write, reg_val(st_vals(state), index))) != common.FAR_FUTURE_EPOCH ==> n_wd_write == old(n_wd_write)
+//@   ensures queued_wd_view: err == nil && old(v_exit(n_val_write, reg_val(st_vals(state), index))) == common.FAR_FUTURE_EPOCH && old(epc.CurrentEpoch.Epoch) + 1 + spec.MAX_SEED_LOOKAHEAD < 4611686018427387904 && reg_len(st_vals(state)) < 4611686018427387904 ==> n_wd_write == old(n_wd_write) + 1 && v_wd(n_wd_write, reg_val(st_vals(state), index)) == set_wd_val
 //@   ensures queued_once: err == nil && old(v_exit(n_val_write, reg_val(st_vals(state), index))) == common.FAR_FUTURE_EPOCH && old(epc.CurrentEpoch.Epoch) + 1 + spec.MAX_SEED_LOOKAHEAD < 4611686018427387904 && reg_len(st_vals(state)) < 4611686018427387904 ==> n_set_exit == old(n_set_exit) + 1 && n_set_wd == old(n_set_wd) + 1
 //@   ensures queued_who: err == nil && old(v_exit(n_val_write, reg_val(st_vals(state), index))) == common.FAR_FUTURE_EPOCH && old(epc.CurrentEpoch.Epoch) + 1 + spec.MAX_SEED_LOOKAHEAD < 4611686018427387904 && reg_len(st_vals(state)) < 4611686018427387904 ==> set_exit_v == reg_val(st_vals(state), index) && set_wd_v == reg_val(st_vals(state), index)
 //@   ensures queued_exit_epoch: err == nil && old(v_exit(n_val_write, reg_val(st_vals(state), index))) == common.FAR_FUTURE_EPOCH && old(epc.CurrentEpoch.Epoch) + 1 + spec.MAX_SEED_LOOKAHEAD < 4611686018427387904 && reg_len(st_vals(state)) < 4611686018427387904 ==> set_exit_val == (let m := exq_max(old(n_val_write), st_vals(state), reg_len(st_vals(state)), old(epc.CurrentEpoch.Epoch) + 1 + spec.MAX_SEED_LOOKAHEAD) in ite(exq_count(old(n_val_write), st_vals(state), reg_len(st_vals(state)), m) >= max(spec.MIN_PER_EPOCH_CHURN_LIMIT, old(len(epc.CurrentEpoch.ActiveIndices)) / spec.CHURN_LIMIT_QUOTIENT), m + 1, m))
@@ -79,6 +81,24 @@ package phase0
 //@     invariant old(epc.CurrentEpoch.Epoch) + 1 + spec.MAX_SEED_LOOKAHEAD < 4611686018427387904 ==> exitQueueEnd == exq_max(n_val_write, validators, viter_pos, old(epc.CurrentEpoch.Epoch) + 1 + spec.MAX_SEED_LOOKAHEAD) && exitQueueEnd != common.FAR_FUTURE_EPOCH
 //@     invariant old(epc.CurrentEpoch.Epoch) + 1 + spec.MAX_SEED_LOOKAHEAD < 4611686018427387904 && reg_len(validators) < 4611686018427387904 ==> exitQueueEndChurn == exq_count(n_val_write, validators, viter_pos, exitQueueEnd) && exitQueueEndChurn <= viter_pos
 //@     invariant forall k :: {reg_val(validators, k)} 0 <= k && k < viter_pos && v_exit(n_val_write, reg_val(validators, k)) != common.FAR_FUTURE_EPOCH ==> v_exit(n_val_write, reg_val(validators, k)) <= exitQueueEnd
+
+// slash_validator (C01): initiate the exit, set the flag, push the withdrawable epoch to at least
+// epoch + EPOCHS_PER_SLASHINGS_VECTOR, add the effective balance to the slashings vector, take the minimum penalty,
+// pay the proposer its share of the whistleblower reward and the whistleblower (the proposer when none is named) the rest.
+// The three balance updates are sequential: the indices may coincide.
+//@ func SlashValidator(spec, epc, state, slashedIndex, whistleblowerIndex) err
+//@   property C01
+//@   use reg_len_nonneg, exq_count_zero
+//@   requires spec != nil && epc != nil && state != nil && epc.CurrentEpoch != nil && spec.CHURN_LIMIT_QUOTIENT != 0 && spec.WHISTLEBLOWER_REWARD_QUOTIENT != 0
+//@   requires quotient: st_fs(state).MinSlashingPenaltyQuotient != 0
+//@   assigns ghost(n_viter), ghost(viter_pos), ghost(viter_reg), ghost(n_val_write), ghost(n_wd_write), ghost(n_set_exit), ghost(set_exit_v), ghost(set_exit_val), ghost(n_set_wd), ghost(set_wd_v), ghost(set_wd_val), ghost(n_make_slashed), ghost(made_slashed_v), ghost(n_add_slashing), ghost(add_slashing_epoch), ghost(add_slashing_val), ghost(n_set_bal)
+//@   ensures exit_kept: err == nil && old(v_exit(n_val_write, reg_val(st_vals(state), slashedIndex))) != common.FAR_FUTURE_EPOCH ==> n_set_exit == old(n_set_exit)
+//@   ensures exit_queued: err == nil && old(v_exit(n_val_write, reg_val(st_vals(state), slashedIndex))) == common.FAR_FUTURE_EPOCH && old(epc.CurrentEpoch.Epoch) + 1 + spec.MAX_SEED_LOOKAHEAD < 4611686018427387904 && reg_len(st_vals(state)) < 4611686018427387904 ==> n_set_exit == old(n_set_exit) + 1 && set_exit_v == reg_val(st_vals(state), slashedIndex) && set_exit_val == exq_epoch(old(n_val_write), st_vals(state), reg_len(st_vals(state)), old(epc.CurrentEpoch.Epoch) + 1 + spec.MAX_SEED_LOOKAHEAD, max(spec.MIN_PER_EPOCH_CHURN_LIMIT, old(len(epc.CurrentEpoch.ActiveIndices)) / spec.CHURN_LIMIT_QUOTIENT))
+//@   ensures flagged: err == nil ==> n_make_slashed == old(n_make_slashed) + 1 && made_slashed_v == reg_val(st_vals(state), slashedIndex)
+//@   ensures withdrawable_kept: err == nil && old(v_exit(n_val_write, reg_val(st_vals(state), slashedIndex))) != common.FAR_FUTURE_EPOCH ==> v_wd(n_wd_write, reg_val(st_vals(state), slashedIndex)) == max(old(v_wd(n_wd_write, reg_val(st_vals(state), slashedIndex))), (old(epc.CurrentEpoch.Epoch) + spec.EPOCHS_PER_SLASHINGS_VECTOR) % 18446744073709551616)
+//@   ensures withdrawable_queued: err == nil && old(v_exit(n_val_write, reg_val(st_vals(state), slashedIndex))) == common.FAR_FUTURE_EPOCH && old(epc.CurrentEpoch.Epoch) + 1 + spec.MAX_SEED_LOOKAHEAD < 4611686018427387904 && reg_len(st_vals(state)) < 4611686018427387904 ==> v_wd(n_wd_write, reg_val(st_vals(state), slashedIndex)) == max((exq_epoch(old(n_val_write), st_vals(state), reg_len(st_vals(state)), old(epc.CurrentEpoch.Epoch) + 1 + spec.MAX_SEED_LOOKAHEAD, max(spec.MIN_PER_EPOCH_CHURN_LIMIT, old(len(epc.CurrentEpoch.ActiveIndices)) / spec.CHURN_LIMIT_QUOTIENT)) + spec.MIN_VALIDATOR_WITHDRAWABILITY_DELAY) % 18446744073709551616, (old(epc.CurrentEpoch.Epoch) + spec.EPOCHS_PER_SLASHINGS_VECTOR) % 18446744073709551616)
+//@   ensures slashings_entry: err == nil ==> n_add_slashing == old(n_add_slashing) + 1 && add_slashing_epoch == old(epc.CurrentEpoch.Epoch) && add_slashing_val == v_eb(reg_val(st_vals(state), slashedIndex))
+//@   ensures balances: err == nil ==> !st_bals_err(state) && !st_slot_err(state) && !epc_proposer_err(epc, st_slot(state)) && n_set_bal == old(n_set_bal) + 3 && (forall k :: {bal_at(n_set_bal, st_bals(state), k)} bal_at(n_set_bal, st_bals(state), k) == ite(k == ite(whistleblowerIndex == nil, epc_proposer(epc, st_slot(state)), old(*whistleblowerIndex)), (ite(k == epc_proposer(epc, st_slot(state)), (ite(k == slashedIndex, ite(bal_at(old(n_set_bal), st_bals(state), k) >= (v_eb(reg_val(st_vals(state), slashedIndex)) / st_fs(state).MinSlashingPenaltyQuotient), bal_at(old(n_set_bal), st_bals(state), k) - (v_eb(reg_val(st_vals(state), slashedIndex)) / st_fs(state).MinSlashingPenaltyQuotient), 0), bal_at(old(n_set_bal), st_bals(state), k)) + fs_share(st_fs(state), (v_eb(reg_val(st_vals(state), slashedIndex)) / spec.WHISTLEBLOWER_REWARD_QUOTIENT))) % 18446744073709551616, ite(k == slashedIndex, ite(bal_at(old(n_set_bal), st_bals(state), k) >= (v_eb(reg_val(st_vals(state), slashedIndex)) / st_fs(state).MinSlashingPenaltyQuotient), bal_at(old(n_set_bal), st_bals(state), k) - (v_eb(reg_val(st_vals(state), slashedIndex)) / st_fs(state).MinSlashingPenaltyQuotient), 0), bal_at(old(n_set_bal), st_bals(state), k))) + ((v_eb(reg_val(st_vals(state), slashedIndex)) / spec.WHISTLEBLOWER_REWARD_QUOTIENT) - fs_share(st_fs(state), (v_eb(reg_val(st_vals(state), slashedIndex)) / spec.WHISTLEBLOWER_REWARD_QUOTIENT))) % 18446744073709551616) % 18446744073709551616, ite(k == epc_proposer(epc, st_slot(state)), (ite(k == slashedIndex, ite(bal_at(old(n_set_bal), st_bals(state), k) >= (v_eb(reg_val(st_vals(state), slashedIndex)) / st_fs(state).MinSlashingPenaltyQuotient), bal_at(old(n_set_bal), st_bals(state), k) - (v_eb(reg_val(st_vals(state), slashedIndex)) / st_fs(state).MinSlashingPenaltyQuotient), 0), bal_at(old(n_set_bal), st_bals(state), k)) + fs_share(st_fs(state), (v_eb(reg_val(st_vals(state), slashedIndex)) / spec.WHISTLEBLOWER_REWARD_QUOTIENT))) % 18446744073709551616, ite(k == slashedIndex, ite(bal_at(old(n_set_bal), st_bals(state), k) >= (v_eb(reg_val(st_vals(state), slashedIndex)) / st_fs(state).MinSlashingPenaltyQuotient), bal_at(old(n_set_bal), st_bals(state), k) - (v_eb(reg_val(st_vals(state), slashedIndex)) / st_fs(state).MinSlashingPenaltyQuotient), 0), bal_at(old(n_set_bal), st_bals(state), k)))))
 
 //@ func ValidateVoluntaryExit(spec, epc, state, signedExit) err
 //@   property C03
@@ -111,7 +131,7 @@ package phase0
 //@   names (err == nil) == pslash_ok(spec, epc, state, *ps)
 //@   ensures nosig: err == nil ==> pslash_nosig_ok(spec, *ps)
 //@   ensures headers: err == nil ==> ps.SignedHeader1.Message.Slot == ps.SignedHeader2.Message.Slot && ps.SignedHeader1.Message.ProposerIndex == ps.SignedHeader2.Message.ProposerIndex && ps.SignedHeader1.Message != ps.SignedHeader2.Message
-//@   ensures slashable: err == nil ==> !st_vals_err(state) && reg_valid(st_vals(state), ps.SignedHeader1.Message.ProposerIndex) && (let v := reg_val(st_vals(state), ps.SignedHeader1.Message.ProposerIndex) in !v_slashed(v) && v_act(v) <= epc.CurrentEpoch.Epoch && epc.CurrentEpoch.Epoch < v_wd(v))
+//@   ensures slashable: err == nil ==> !st_vals_err(state) && reg_valid(st_vals(state), ps.SignedHeader1.Message.ProposerIndex) && (let v := reg_val(st_vals(state), ps.SignedHeader1.Message.ProposerIndex) in !v_slashed(v) && v_act(v) <= epc.CurrentEpoch.Epoch && epc.CurrentEpoch.Epoch < v_wd(n_wd_write, v))
 //@   ensures signatures: err == nil ==> (let dom := state_domain(state, common.DOMAIN_BEACON_PROPOSER, ps.SignedHeader1.Message.Slot / spec.SLOTS_PER_EPOCH) in !state_domain_err(state, common.DOMAIN_BEACON_PROPOSER, ps.SignedHeader1.Message.Slot / spec.SLOTS_PER_EPOCH) && sig_valid(ps.SignedHeader1.Signature) && sig_valid(ps.SignedHeader2.Signature) && (exists p CPubP :: pub_valid(p.Compressed) && bls_ok(p.Compressed, seq(signing_root(header_root(ps.SignedHeader1.Message), dom)), ps.SignedHeader1.Signature) && bls_ok(p.Compressed, seq(signing_root(header_root(ps.SignedHeader2.Message), dom)), ps.SignedHeader2.Signature)))
 
 // is_valid_indexed_attestation (C03): non-empty, bounded, strictly increasing index set (sortedness through sort.IsSorted,
@@ -225,7 +245,7 @@ package phase0
 //@   property C12
 //@   opt noalloc
 //@   requires v != nil
-//@   ensures err == nil ==> r == (!v_slashed(v) && v_act(v) <= epoch && epoch < v_wd(v))
+//@   ensures err == nil ==> r == (!v_slashed(v) && v_act(v) <= epoch && epoch < v_wd(n_wd_write, v))
 //@   ensures err != nil ==> !r
 
 // max count, non-empty, sorted, unique: assumed predicate (sort.IsSorted is outside the repository)
@@ -258,18 +278,45 @@ package phase0
 // already holds churn-limit exits; ComputeRegistryProcessData computes that epoch, the churn counted at it
 // and the churn limit (over the active validators of the current epoch) from the flat snapshot.
 //@ sort FlatsT = []common.FlatValidator
+//@ sort FlatT = common.FlatValidator
 //@ defrec fexq_max(fl FlatsT, i int, base int) int = ite(i <= 0, base, ite(fl[i - 1].ExitEpoch != common.FAR_FUTURE_EPOCH && fl[i - 1].ExitEpoch > fexq_max(fl, i - 1, base), fl[i - 1].ExitEpoch, fexq_max(fl, i - 1, base)))
 //@ defrec fexq_count(fl FlatsT, i int, e int) int = ite(i <= 0, 0, fexq_count(fl, i - 1, e) + ite(fl[i - 1].ExitEpoch == e, 1, 0))
 //@ defrec fact_count(fl FlatsT, ep int, i int) int = ite(i <= 0, 0, fact_count(fl, ep, i - 1) + ite(fl[i - 1].ActivationEpoch <= ep && ep < fl[i - 1].ExitEpoch, 1, 0))
 //@ lemma fexq_count_zero [C02, induct=i, manual]: forall i int, fl FlatsT, e int :: {fexq_count(fl, i, e)} (forall k :: {fl[k]} 0 <= k && k < i ==> fl[k].ExitEpoch != e) ==> fexq_count(fl, i, e) == 0
+//@ define reg_elig(f FlatT, maxeb int) bool = f.ActivationEligibilityEpoch == common.FAR_FUTURE_EPOCH && f.EffectiveBalance == maxeb
+//@ define reg_eject(f FlatT, cur int, ejbal int) bool = f.ActivationEpoch <= cur && cur < f.ExitEpoch && f.EffectiveBalance <= ejbal && f.ExitEpoch == common.FAR_FUTURE_EPOCH
+//@ define reg_maybe(f FlatT, cur int) bool = f.ActivationEpoch == common.FAR_FUTURE_EPOCH && f.ActivationEligibilityEpoch <= cur
+//@ defrec elig_cnt(fl FlatsT, maxeb int, i int) int = ite(i <= 0, 0, elig_cnt(fl, maxeb, i - 1) + ite(reg_elig(fl[i - 1], maxeb), 1, 0))
+//@ defrec eject_cnt(fl FlatsT, cur int, ejbal int, i int) int = ite(i <= 0, 0, eject_cnt(fl, cur, ejbal, i - 1) + ite(reg_eject(fl[i - 1], cur, ejbal), 1, 0))
+//@ defrec maybe_cnt(fl FlatsT, cur int, i int) int = ite(i <= 0, 0, maybe_cnt(fl, cur, i - 1) + ite(reg_maybe(fl[i - 1], cur), 1, 0))
+// the queue ComputeRegistryProcessData hands out, as functions of the flat snapshot
+//@ define rq_lim(minchurn int, quot int, fl FlatsT, cur int) int = max(minchurn, fact_count(fl, cur, len(fl)) / quot)
+//@ define rq_end(fl FlatsT, base int, lim int) int = ite(fexq_count(fl, len(fl), fexq_max(fl, len(fl), base)) >= lim, fexq_max(fl, len(fl), base) + 1, fexq_max(fl, len(fl), base))
+//@ define rq_churn(fl FlatsT, base int, lim int) int = ite(fexq_count(fl, len(fl), fexq_max(fl, len(fl), base)) >= lim, 0, fexq_count(fl, len(fl), fexq_max(fl, len(fl), base)))
 //@ func ComputeRegistryProcessData(spec, flats, currentEpoch) (out, err)
 //@   property C02
 //@   use fexq_count_zero
 //@   requires spec != nil && spec.CHURN_LIMIT_QUOTIENT != 0
 //@   ensures limit: err == nil ==> out != nil && out.ChurnLimit == max(spec.MIN_PER_EPOCH_CHURN_LIMIT, fact_count(flats, currentEpoch, len(flats)) / spec.CHURN_LIMIT_QUOTIENT)
 //@   ensures queue: err == nil && currentEpoch + 1 + spec.MAX_SEED_LOOKAHEAD < 4611686018427387904 ==> (let m := fexq_max(flats, len(flats), currentEpoch + 1 + spec.MAX_SEED_LOOKAHEAD) in out.ExitQueueEnd == ite(fexq_count(flats, len(flats), m) >= out.ChurnLimit, m + 1, m) && out.ExitQueueEndChurn == ite(fexq_count(flats, len(flats), m) >= out.ChurnLimit, 0, fexq_count(flats, len(flats), m)))
+//@   ensures eligible: err == nil ==> len(out.IndicesToSetActivationEligibility) == elig_cnt(flats, spec.MAX_EFFECTIVE_BALANCE, len(flats)) && (forall p :: {elig_cnt(flats, spec.MAX_EFFECTIVE_BALANCE, p)} 0 <= p && p < len(flats) && reg_elig(flats[p], spec.MAX_EFFECTIVE_BALANCE) ==> 0 <= elig_cnt(flats, spec.MAX_EFFECTIVE_BALANCE, p) && elig_cnt(flats, spec.MAX_EFFECTIVE_BALANCE, p) < len(out.IndicesToSetActivationEligibility) && out.IndicesToSetActivationEligibility[elig_cnt(flats, spec.MAX_EFFECTIVE_BALANCE, p)] == p)
+//@   ensures eject: err == nil ==> len(out.IndicesToEject) == eject_cnt(flats, currentEpoch, spec.EJECTION_BALANCE, len(flats)) && (forall p :: {eject_cnt(flats, currentEpoch, spec.EJECTION_BALANCE, p)} 0 <= p && p < len(flats) && reg_eject(flats[p], currentEpoch, spec.EJECTION_BALANCE) ==> 0 <= eject_cnt(flats, currentEpoch, spec.EJECTION_BALANCE, p) && eject_cnt(flats, currentEpoch, spec.EJECTION_BALANCE, p) < len(out.IndicesToEject) && out.IndicesToEject[eject_cnt(flats, currentEpoch, spec.EJECTION_BALANCE, p)] == p)
+//@   ensures eject_sorted: err == nil ==> (forall a, b :: {out.IndicesToEject[a], out.IndicesToEject[b]} 0 <= a && a < b && b < len(out.IndicesToEject) ==> out.IndicesToEject[a] < out.IndicesToEject[b]) && (forall a :: {out.IndicesToEject[a]} 0 <= a && a < len(out.IndicesToEject) ==> out.IndicesToEject[a] < len(flats))
+//@   ensures eligible_sorted: err == nil ==> (forall a, b :: {out.IndicesToSetActivationEligibility[a], out.IndicesToSetActivationEligibility[b]} 0 <= a && a < b && b < len(out.IndicesToSetActivationEligibility) ==> out.IndicesToSetActivationEligibility[a] < out.IndicesToSetActivationEligibility[b]) && (forall a :: {out.IndicesToSetActivationEligibility[a]} 0 <= a && a < len(out.IndicesToSetActivationEligibility) ==> out.IndicesToSetActivationEligibility[a] < len(flats))
+//@   ensures eject_sound: err == nil ==> (forall a :: {out.IndicesToEject[a]} 0 <= a && a < len(out.IndicesToEject) ==> reg_eject(flats[out.IndicesToEject[a]], currentEpoch, spec.EJECTION_BALANCE))
+//@   ensures eligible_sound: err == nil ==> (forall a :: {out.IndicesToSetActivationEligibility[a]} 0 <= a && a < len(out.IndicesToSetActivationEligibility) ==> reg_elig(flats[out.IndicesToSetActivationEligibility[a]], spec.MAX_EFFECTIVE_BALANCE))
+//@   ensures maybe_activate: err == nil ==> len(out.IndicesToMaybeActivate) == maybe_cnt(flats, currentEpoch, len(flats))
 //@   loop 1
 //@     invariant 0 <= i && i <= count && count == len(flats) && activeCount == fact_count(flats, currentEpoch, i) && activeCount <= i
+//@     invariant len(out.IndicesToSetActivationEligibility) == elig_cnt(flats, spec.MAX_EFFECTIVE_BALANCE, i) && len(out.IndicesToSetActivationEligibility) <= i && len(out.IndicesToEject) == eject_cnt(flats, currentEpoch, spec.EJECTION_BALANCE, i) && len(out.IndicesToEject) <= i && len(out.IndicesToMaybeActivate) == maybe_cnt(flats, currentEpoch, i) && len(out.IndicesToMaybeActivate) <= i
+//@     invariant forall p :: {elig_cnt(flats, spec.MAX_EFFECTIVE_BALANCE, p)} 0 <= p && p < i && reg_elig(flats[p], spec.MAX_EFFECTIVE_BALANCE) ==> 0 <= elig_cnt(flats, spec.MAX_EFFECTIVE_BALANCE, p) && elig_cnt(flats, spec.MAX_EFFECTIVE_BALANCE, p) < len(out.IndicesToSetActivationEligibility) && out.IndicesToSetActivationEligibility[elig_cnt(flats, spec.MAX_EFFECTIVE_BALANCE, p)] == p
+//@     invariant forall p :: {eject_cnt(flats, currentEpoch, spec.EJECTION_BALANCE, p)} 0 <= p && p < i && reg_eject(flats[p], currentEpoch, spec.EJECTION_BALANCE) ==> 0 <= eject_cnt(flats, currentEpoch, spec.EJECTION_BALANCE, p) && eject_cnt(flats, currentEpoch, spec.EJECTION_BALANCE, p) < len(out.IndicesToEject) && out.IndicesToEject[eject_cnt(flats, currentEpoch, spec.EJECTION_BALANCE, p)] == p
+//@     invariant forall a :: {out.IndicesToEject[a]} 0 <= a && a < len(out.IndicesToEject) ==> out.IndicesToEject[a] < i
+//@     invariant forall a :: {out.IndicesToEject[a]} 0 <= a && a < len(out.IndicesToEject) ==> reg_eject(flats[out.IndicesToEject[a]], currentEpoch, spec.EJECTION_BALANCE)
+//@     invariant forall a :: {out.IndicesToSetActivationEligibility[a]} 0 <= a && a < len(out.IndicesToSetActivationEligibility) ==> reg_elig(flats[out.IndicesToSetActivationEligibility[a]], spec.MAX_EFFECTIVE_BALANCE)
+//@     invariant forall a, b :: {out.IndicesToEject[a], out.IndicesToEject[b]} 0 <= a && a < b && b < len(out.IndicesToEject) ==> out.IndicesToEject[a] < out.IndicesToEject[b]
+//@     invariant forall a :: {out.IndicesToSetActivationEligibility[a]} 0 <= a && a < len(out.IndicesToSetActivationEligibility) ==> out.IndicesToSetActivationEligibility[a] < i
+//@     invariant forall a, b :: {out.IndicesToSetActivationEligibility[a], out.IndicesToSetActivationEligibility[b]} 0 <= a && a < b && b < len(out.IndicesToSetActivationEligibility) ==> out.IndicesToSetActivationEligibility[a] < out.IndicesToSetActivationEligibility[b]
 //@   loop 2
 //@     invariant 0 <= i && i <= count && count == len(flats) && activeCount == fact_count(flats, currentEpoch, len(flats))
 //@     invariant currentEpoch + 1 + spec.MAX_SEED_LOOKAHEAD < 4611686018427387904 ==> exitQueueEnd == fexq_max(flats, i, currentEpoch + 1 + spec.MAX_SEED_LOOKAHEAD) && exitQueueEnd != common.FAR_FUTURE_EPOCH && exitQueueEndChurn == fexq_count(flats, i, exitQueueEnd) && exitQueueEndChurn <= i
@@ -328,7 +375,7 @@ package phase0
 //@     invariant ctx_t >= old(ctx_t) && (old(ctx_seen) || !ctx_seen)
 //@     invariant ctx_t > old(ctx_t) ==> !ctx_cancelled(ctx, old(ctx_t))
 //@   assigns ghost(n_set_bal)
-//@   assigns ghost(n_viter), ghost(viter_pos), ghost(viter_reg), ghost(n_val_write), ghost(n_set_exit), ghost(set_exit_v), ghost(set_exit_val), ghost(n_set_wd), ghost(set_wd_v), ghost(set_wd_val)
+//@   assigns ghost(n_viter), ghost(viter_pos), ghost(viter_reg), ghost(n_val_write), ghost(n_wd_write), ghost(n_set_exit), ghost(set_exit_v), ghost(set_exit_val), ghost(n_set_wd), ghost(set_wd_v), ghost(set_wd_val)
 
 //@ func AttestationRewardsAndPenalties(ctx, spec, epc, attesterData, state) (r0, err)
 //@   property C18
@@ -539,7 +586,7 @@ package phase0
 //@     invariant ctx_t >= old(ctx_t) && (old(ctx_seen) || !ctx_seen)
 //@     invariant ctx_t > old(ctx_t) ==> !ctx_cancelled(ctx, old(ctx_t))
 //@   assigns ghost(n_set_bal)
-//@   assigns ghost(n_viter), ghost(viter_pos), ghost(viter_reg), ghost(n_val_write), ghost(n_set_exit), ghost(set_exit_v), ghost(set_exit_val), ghost(n_set_wd), ghost(set_wd_v), ghost(set_wd_val)
+//@   assigns ghost(n_viter), ghost(viter_pos), ghost(viter_reg), ghost(n_val_write), ghost(n_wd_write), ghost(n_set_exit), ghost(set_exit_v), ghost(set_exit_val), ghost(n_set_wd), ghost(set_wd_v), ghost(set_wd_val)
 
 //@ func ProcessRandaoReveal(ctx, spec, epc, state, reveal) err
 //@   property C18 C03 C01
@@ -561,7 +608,7 @@ package phase0
 //@   ensures c01_mix: spec != nil && spec.SLOTS_PER_EPOCH != 0 && state != nil && err == nil ==> (let ep := st_slot(state) / spec.SLOTS_PER_EPOCH in n_set_mix == old(n_set_mix) + 1 && last_set_mix_epoch == ep && (forall k :: {last_set_mix[k]} 0 <= k && k < 32 ==> last_set_mix[k] == mix_at(st_mixes(state), ep)[k] ^ sha256(seq(reveal))[k]))
 
 //@ func ProcessEpochRegistryUpdates(ctx, spec, epc, flats, state) err
-//@   property C18
+//@   property C18 C02
 //@   panics off
 //@   requires ctx != nil
 //@   opt weakcalls
@@ -574,7 +621,26 @@ package phase0
 //@   loop *
 //@     invariant ctx_t >= old(ctx_t) && (old(ctx_seen) || !ctx_seen)
 //@     invariant ctx_t > old(ctx_t) ==> !ctx_cancelled(ctx, old(ctx_t))
-//@   assigns ghost(n_viter), ghost(viter_pos), ghost(viter_reg), ghost(n_val_write), ghost(n_set_exit), ghost(set_exit_v), ghost(set_exit_val), ghost(n_set_wd), ghost(set_wd_v), ghost(set_wd_val)
+//@   opt rangeindex=on
+//@   use ejq_epoch_bound
+//@   assigns ghost(n_aelig_write), ghost(n_set_act), ghost(last_set_act_v), ghost(last_set_act_val)
+//@   ensures c02_ejected: err == nil && old(spec != nil && epc != nil && state != nil && epc.CurrentEpoch != nil && spec.CHURN_LIMIT_QUOTIENT != 0 && (epc.CurrentEpoch.Epoch + 1 + spec.MAX_SEED_LOOKAHEAD) < 4611686018427387904 && len(flats) < 4611686018427387904 && rq_end(flats, (epc.CurrentEpoch.Epoch + 1 + spec.MAX_SEED_LOOKAHEAD), rq_lim(spec.MIN_PER_EPOCH_CHURN_LIMIT, spec.CHURN_LIMIT_QUOTIENT, flats, epc.CurrentEpoch.Epoch)) < 4611686018427387904 && rq_lim(spec.MIN_PER_EPOCH_CHURN_LIMIT, spec.CHURN_LIMIT_QUOTIENT, flats, epc.CurrentEpoch.Epoch) < 4611686018427387904 && (forall a, b :: {reg_val(st_vals(state), a), reg_val(st_vals(state), b)} 0 <= a && a < b && b < len(flats) ==> reg_val(st_vals(state), a) != reg_val(st_vals(state), b))) ==> (forall p :: {reg_val(st_vals(state), p)} 0 <= p && p < len(flats) && reg_eject(flats[p], old(epc.CurrentEpoch.Epoch), spec.EJECTION_BALANCE) ==> v_exit(n_val_write, reg_val(st_vals(state), p)) == old(ejq_epoch(rq_end(flats, (epc.CurrentEpoch.Epoch + 1 + spec.MAX_SEED_LOOKAHEAD), rq_lim(spec.MIN_PER_EPOCH_CHURN_LIMIT, spec.CHURN_LIMIT_QUOTIENT, flats, epc.CurrentEpoch.Epoch)), rq_churn(flats, (epc.CurrentEpoch.Epoch + 1 + spec.MAX_SEED_LOOKAHEAD), rq_lim(spec.MIN_PER_EPOCH_CHURN_LIMIT, spec.CHURN_LIMIT_QUOTIENT, flats, epc.CurrentEpoch.Epoch)), rq_lim(spec.MIN_PER_EPOCH_CHURN_LIMIT, spec.CHURN_LIMIT_QUOTIENT, flats, epc.CurrentEpoch.Epoch), eject_cnt(flats, epc.CurrentEpoch.Epoch, spec.EJECTION_BALANCE, p))) && v_wd(n_wd_write, reg_val(st_vals(state), p)) == old(ejq_epoch(rq_end(flats, (epc.CurrentEpoch.Epoch + 1 + spec.MAX_SEED_LOOKAHEAD), rq_lim(spec.MIN_PER_EPOCH_CHURN_LIMIT, spec.CHURN_LIMIT_QUOTIENT, flats, epc.CurrentEpoch.Epoch)), rq_churn(flats, (epc.CurrentEpoch.Epoch + 1 + spec.MAX_SEED_LOOKAHEAD), rq_lim(spec.MIN_PER_EPOCH_CHURN_LIMIT, spec.CHURN_LIMIT_QUOTIENT, flats, epc.CurrentEpoch.Epoch)), rq_lim(spec.MIN_PER_EPOCH_CHURN_LIMIT, spec.CHURN_LIMIT_QUOTIENT, flats, epc.CurrentEpoch.Epoch), eject_cnt(flats, epc.CurrentEpoch.Epoch, spec.EJECTION_BALANCE, p))) + spec.MIN_VALIDATOR_WITHDRAWABILITY_DELAY)
+//@   ensures c02_not_ejected: err == nil && old(spec != nil && epc != nil && state != nil && epc.CurrentEpoch != nil && spec.CHURN_LIMIT_QUOTIENT != 0 && (epc.CurrentEpoch.Epoch + 1 + spec.MAX_SEED_LOOKAHEAD) < 4611686018427387904 && len(flats) < 4611686018427387904 && rq_end(flats, (epc.CurrentEpoch.Epoch + 1 + spec.MAX_SEED_LOOKAHEAD), rq_lim(spec.MIN_PER_EPOCH_CHURN_LIMIT, spec.CHURN_LIMIT_QUOTIENT, flats, epc.CurrentEpoch.Epoch)) < 4611686018427387904 && rq_lim(spec.MIN_PER_EPOCH_CHURN_LIMIT, spec.CHURN_LIMIT_QUOTIENT, flats, epc.CurrentEpoch.Epoch) < 4611686018427387904 && (forall a, b :: {reg_val(st_vals(state), a), reg_val(st_vals(state), b)} 0 <= a && a < b && b < len(flats) ==> reg_val(st_vals(state), a) != reg_val(st_vals(state), b))) ==> (forall p :: {reg_val(st_vals(state), p)} 0 <= p && p < len(flats) && !reg_eject(flats[p], old(epc.CurrentEpoch.Epoch), spec.EJECTION_BALANCE) ==> v_exit(n_val_write, reg_val(st_vals(state), p)) == old(v_exit(n_val_write, reg_val(st_vals(state), p))) && v_wd(n_wd_write, reg_val(st_vals(state), p)) == old(v_wd(n_wd_write, reg_val(st_vals(state), p))))
+//@   ensures c02_eligible: err == nil && old(spec != nil && epc != nil && state != nil && epc.CurrentEpoch != nil && spec.CHURN_LIMIT_QUOTIENT != 0 && (epc.CurrentEpoch.Epoch + 1 + spec.MAX_SEED_LOOKAHEAD) < 4611686018427387904 && len(flats) < 4611686018427387904 && rq_end(flats, (epc.CurrentEpoch.Epoch + 1 + spec.MAX_SEED_LOOKAHEAD), rq_lim(spec.MIN_PER_EPOCH_CHURN_LIMIT, spec.CHURN_LIMIT_QUOTIENT, flats, epc.CurrentEpoch.Epoch)) < 4611686018427387904 && rq_lim(spec.MIN_PER_EPOCH_CHURN_LIMIT, spec.CHURN_LIMIT_QUOTIENT, flats, epc.CurrentEpoch.Epoch) < 4611686018427387904 && (forall a, b :: {reg_val(st_vals(state), a), reg_val(st_vals(state), b)} 0 <= a && a < b && b < len(flats) ==> reg_val(st_vals(state), a) != reg_val(st_vals(state), b))) ==> (forall p :: {reg_val(st_vals(state), p)} 0 <= p && p < len(flats) && reg_elig(flats[p], spec.MAX_EFFECTIVE_BALANCE) ==> elig_cnt(flats, spec.MAX_EFFECTIVE_BALANCE, p) >= 0 && v_aelig(n_aelig_write, reg_val(st_vals(state), p)) == (old(epc.CurrentEpoch.Epoch) + 1) % 18446744073709551616)
+//@   ensures c02_not_eligible: err == nil && old(spec != nil && epc != nil && state != nil && epc.CurrentEpoch != nil && spec.CHURN_LIMIT_QUOTIENT != 0 && (epc.CurrentEpoch.Epoch + 1 + spec.MAX_SEED_LOOKAHEAD) < 4611686018427387904 && len(flats) < 4611686018427387904 && rq_end(flats, (epc.CurrentEpoch.Epoch + 1 + spec.MAX_SEED_LOOKAHEAD), rq_lim(spec.MIN_PER_EPOCH_CHURN_LIMIT, spec.CHURN_LIMIT_QUOTIENT, flats, epc.CurrentEpoch.Epoch)) < 4611686018427387904 && rq_lim(spec.MIN_PER_EPOCH_CHURN_LIMIT, spec.CHURN_LIMIT_QUOTIENT, flats, epc.CurrentEpoch.Epoch) < 4611686018427387904 && (forall a, b :: {reg_val(st_vals(state), a), reg_val(st_vals(state), b)} 0 <= a && a < b && b < len(flats) ==> reg_val(st_vals(state), a) != reg_val(st_vals(state), b))) ==> (forall p :: {reg_val(st_vals(state), p)} 0 <= p && p < len(flats) && !reg_elig(flats[p], spec.MAX_EFFECTIVE_BALANCE) ==> v_aelig(n_aelig_write, reg_val(st_vals(state), p)) == old(v_aelig(n_aelig_write, reg_val(st_vals(state), p))))
+//@   ensures c02_activation: err == nil && old(spec != nil && epc != nil && state != nil && epc.CurrentEpoch != nil && spec.CHURN_LIMIT_QUOTIENT != 0 && (epc.CurrentEpoch.Epoch + 1 + spec.MAX_SEED_LOOKAHEAD) < 4611686018427387904 && len(flats) < 4611686018427387904 && rq_end(flats, (epc.CurrentEpoch.Epoch + 1 + spec.MAX_SEED_LOOKAHEAD), rq_lim(spec.MIN_PER_EPOCH_CHURN_LIMIT, spec.CHURN_LIMIT_QUOTIENT, flats, epc.CurrentEpoch.Epoch)) < 4611686018427387904 && rq_lim(spec.MIN_PER_EPOCH_CHURN_LIMIT, spec.CHURN_LIMIT_QUOTIENT, flats, epc.CurrentEpoch.Epoch) < 4611686018427387904 && (forall a, b :: {reg_val(st_vals(state), a), reg_val(st_vals(state), b)} 0 <= a && a < b && b < len(flats) ==> reg_val(st_vals(state), a) != reg_val(st_vals(state), b))) ==> n_set_act >= old(n_set_act) && n_set_act - old(n_set_act) <= maybe_cnt(flats, old(epc.CurrentEpoch.Epoch), len(flats)) && (n_set_act > old(n_set_act) ==> last_set_act_val == old((epc.CurrentEpoch.Epoch + 1 + spec.MAX_SEED_LOOKAHEAD)))
+//@   loop 1
+//@     invariant vals == st_vals(state) && n_aelig_write == old(n_aelig_write) && n_set_act == old(n_set_act)
+//@     invariant old(spec != nil && epc != nil && state != nil && epc.CurrentEpoch != nil && spec.CHURN_LIMIT_QUOTIENT != 0 && (epc.CurrentEpoch.Epoch + 1 + spec.MAX_SEED_LOOKAHEAD) < 4611686018427387904 && len(flats) < 4611686018427387904 && rq_end(flats, (epc.CurrentEpoch.Epoch + 1 + spec.MAX_SEED_LOOKAHEAD), rq_lim(spec.MIN_PER_EPOCH_CHURN_LIMIT, spec.CHURN_LIMIT_QUOTIENT, flats, epc.CurrentEpoch.Epoch)) < 4611686018427387904 && rq_lim(spec.MIN_PER_EPOCH_CHURN_LIMIT, spec.CHURN_LIMIT_QUOTIENT, flats, epc.CurrentEpoch.Epoch) < 4611686018427387904 && (forall a, b :: {reg_val(st_vals(state), a), reg_val(st_vals(state), b)} 0 <= a && a < b && b < len(flats) ==> reg_val(st_vals(state), a) != reg_val(st_vals(state), b))) ==> registerData != nil && exitEnd == ejq_epoch(rq_end(flats, (epc.CurrentEpoch.Epoch + 1 + spec.MAX_SEED_LOOKAHEAD), rq_lim(spec.MIN_PER_EPOCH_CHURN_LIMIT, spec.CHURN_LIMIT_QUOTIENT, flats, epc.CurrentEpoch.Epoch)), rq_churn(flats, (epc.CurrentEpoch.Epoch + 1 + spec.MAX_SEED_LOOKAHEAD), rq_lim(spec.MIN_PER_EPOCH_CHURN_LIMIT, spec.CHURN_LIMIT_QUOTIENT, flats, epc.CurrentEpoch.Epoch)), rq_lim(spec.MIN_PER_EPOCH_CHURN_LIMIT, spec.CHURN_LIMIT_QUOTIENT, flats, epc.CurrentEpoch.Epoch), rangeindex + 1) && endChurn == ejq_churn(rq_churn(flats, (epc.CurrentEpoch.Epoch + 1 + spec.MAX_SEED_LOOKAHEAD), rq_lim(spec.MIN_PER_EPOCH_CHURN_LIMIT, spec.CHURN_LIMIT_QUOTIENT, flats, epc.CurrentEpoch.Epoch)), rq_lim(spec.MIN_PER_EPOCH_CHURN_LIMIT, spec.CHURN_LIMIT_QUOTIENT, flats, epc.CurrentEpoch.Epoch), rangeindex + 1) && registerData.ChurnLimit == rq_lim(spec.MIN_PER_EPOCH_CHURN_LIMIT, spec.CHURN_LIMIT_QUOTIENT, flats, epc.CurrentEpoch.Epoch) && endChurn <= registerData.ChurnLimit
+//@     invariant old(spec != nil && epc != nil && state != nil && epc.CurrentEpoch != nil && spec.CHURN_LIMIT_QUOTIENT != 0 && (epc.CurrentEpoch.Epoch + 1 + spec.MAX_SEED_LOOKAHEAD) < 4611686018427387904 && len(flats) < 4611686018427387904 && rq_end(flats, (epc.CurrentEpoch.Epoch + 1 + spec.MAX_SEED_LOOKAHEAD), rq_lim(spec.MIN_PER_EPOCH_CHURN_LIMIT, spec.CHURN_LIMIT_QUOTIENT, flats, epc.CurrentEpoch.Epoch)) < 4611686018427387904 && rq_lim(spec.MIN_PER_EPOCH_CHURN_LIMIT, spec.CHURN_LIMIT_QUOTIENT, flats, epc.CurrentEpoch.Epoch) < 4611686018427387904 && (forall a, b :: {reg_val(st_vals(state), a), reg_val(st_vals(state), b)} 0 <= a && a < b && b < len(flats) ==> reg_val(st_vals(state), a) != reg_val(st_vals(state), b))) ==> (forall j :: {registerData.IndicesToEject[j]} 0 <= j && j <= rangeindex ==> v_exit(n_val_write, reg_val(vals, registerData.IndicesToEject[j])) == ejq_epoch(rq_end(flats, (epc.CurrentEpoch.Epoch + 1 + spec.MAX_SEED_LOOKAHEAD), rq_lim(spec.MIN_PER_EPOCH_CHURN_LIMIT, spec.CHURN_LIMIT_QUOTIENT, flats, epc.CurrentEpoch.Epoch)), rq_churn(flats, (epc.CurrentEpoch.Epoch + 1 + spec.MAX_SEED_LOOKAHEAD), rq_lim(spec.MIN_PER_EPOCH_CHURN_LIMIT, spec.CHURN_LIMIT_QUOTIENT, flats, epc.CurrentEpoch.Epoch)), rq_lim(spec.MIN_PER_EPOCH_CHURN_LIMIT, spec.CHURN_LIMIT_QUOTIENT, flats, epc.CurrentEpoch.Epoch), j) && v_wd(n_wd_write, reg_val(vals, registerData.IndicesToEject[j])) == ejq_epoch(rq_end(flats, (epc.CurrentEpoch.Epoch + 1 + spec.MAX_SEED_LOOKAHEAD), rq_lim(spec.MIN_PER_EPOCH_CHURN_LIMIT, spec.CHURN_LIMIT_QUOTIENT, flats, epc.CurrentEpoch.Epoch)), rq_churn(flats, (epc.CurrentEpoch.Epoch + 1 + spec.MAX_SEED_LOOKAHEAD), rq_lim(spec.MIN_PER_EPOCH_CHURN_LIMIT, spec.CHURN_LIMIT_QUOTIENT, flats, epc.CurrentEpoch.Epoch)), rq_lim(spec.MIN_PER_EPOCH_CHURN_LIMIT, spec.CHURN_LIMIT_QUOTIENT, flats, epc.CurrentEpoch.Epoch), j) + spec.MIN_VALIDATOR_WITHDRAWABILITY_DELAY)
+//@     invariant forall w ValI :: {v_exit(n_val_write, w)} {v_wd(n_wd_write, w)} (forall j :: {registerData.IndicesToEject[j]} 0 <= j && j <= rangeindex ==> reg_val(vals, registerData.IndicesToEject[j]) != w) ==> v_exit(n_val_write, w) == v_exit(old(n_val_write), w) && v_wd(n_wd_write, w) == v_wd(old(n_wd_write), w)
+//@   loop 2
+//@     invariant vals == st_vals(state) && n_set_act == old(n_set_act) && eligibilityEpoch == (epc.CurrentEpoch.Epoch + 1) % 18446744073709551616
+//@     invariant old(spec != nil && epc != nil && state != nil && epc.CurrentEpoch != nil && spec.CHURN_LIMIT_QUOTIENT != 0 && (epc.CurrentEpoch.Epoch + 1 + spec.MAX_SEED_LOOKAHEAD) < 4611686018427387904 && len(flats) < 4611686018427387904 && rq_end(flats, (epc.CurrentEpoch.Epoch + 1 + spec.MAX_SEED_LOOKAHEAD), rq_lim(spec.MIN_PER_EPOCH_CHURN_LIMIT, spec.CHURN_LIMIT_QUOTIENT, flats, epc.CurrentEpoch.Epoch)) < 4611686018427387904 && rq_lim(spec.MIN_PER_EPOCH_CHURN_LIMIT, spec.CHURN_LIMIT_QUOTIENT, flats, epc.CurrentEpoch.Epoch) < 4611686018427387904 && (forall a, b :: {reg_val(st_vals(state), a), reg_val(st_vals(state), b)} 0 <= a && a < b && b < len(flats) ==> reg_val(st_vals(state), a) != reg_val(st_vals(state), b))) ==> (forall j :: {registerData.IndicesToSetActivationEligibility[j]} 0 <= j && j <= rangeindex ==> v_aelig(n_aelig_write, reg_val(vals, registerData.IndicesToSetActivationEligibility[j])) == eligibilityEpoch)
+//@     invariant forall w ValI :: {v_aelig(n_aelig_write, w)} (forall j :: {registerData.IndicesToSetActivationEligibility[j]} 0 <= j && j <= rangeindex ==> reg_val(vals, registerData.IndicesToSetActivationEligibility[j]) != w) ==> v_aelig(n_aelig_write, w) == v_aelig(old(n_aelig_write), w)
+//@   loop 3
+//@     invariant n_set_act >= old(n_set_act) && n_set_act - old(n_set_act) <= rangeindex + 1 && (n_set_act > old(n_set_act) ==> last_set_act_val == activationEpoch)
+//@   assigns ghost(n_viter), ghost(viter_pos), ghost(viter_reg), ghost(n_val_write), ghost(n_wd_write), ghost(n_set_exit), ghost(set_exit_v), ghost(set_exit_val), ghost(n_set_wd), ghost(set_wd_v), ghost(set_wd_val)
 
 //@ func ProcessEpochSlashings(ctx, spec, epc, flats, state) err
 //@   property C18 C02
@@ -620,9 +686,10 @@ package phase0
 //@     invariant ctx_t > old(ctx_t) ==> !ctx_cancelled(ctx, old(ctx_t))
 //@   assigns ghost(n_biter), ghost(biter_pos), ghost(biter_reg), ghost(n_set_eb)
 //@   assigns ghost(n_set_bal)
+//@   assigns ghost(n_aelig_write), ghost(n_set_act), ghost(last_set_act_v), ghost(last_set_act_val)
 //@   assigns ghost(n_eth1_reset), ghost(n_slash_reset), ghost(last_slash_reset), ghost(n_set_mix), ghost(last_set_mix_epoch), ghost(last_set_mix), ghost(n_hist_update)
 //@   assigns ghost(n_set_prevjust), ghost(set_prevjust), ghost(n_set_curjust), ghost(set_curjust), ghost(n_set_fin), ghost(set_fin), ghost(n_set_jbits), ghost(set_jbits)
-//@   assigns ghost(n_viter), ghost(viter_pos), ghost(viter_reg), ghost(n_val_write), ghost(n_set_exit), ghost(set_exit_v), ghost(set_exit_val), ghost(n_set_wd), ghost(set_wd_v), ghost(set_wd_val)
+//@   assigns ghost(n_viter), ghost(viter_pos), ghost(viter_reg), ghost(n_val_write), ghost(n_wd_write), ghost(n_set_exit), ghost(set_exit_v), ghost(set_exit_val), ghost(n_set_wd), ghost(set_wd_v), ghost(set_wd_val)
 
 //@ func (state *BeaconStateView) ProcessBlock(ctx, spec, epc, benv) err
 //@   property C18
@@ -641,7 +708,7 @@ package phase0
 //@   assigns ghost(n_set_bal)
 //@   assigns ghost(n_set_mix), ghost(last_set_mix_epoch), ghost(last_set_mix)
 //@   assigns ghost(n_set_lhdr), ghost(set_lhdr)
-//@   assigns ghost(n_viter), ghost(viter_pos), ghost(viter_reg), ghost(n_val_write), ghost(n_set_exit), ghost(set_exit_v), ghost(set_exit_val), ghost(n_set_wd), ghost(set_wd_v), ghost(set_wd_val)
+//@   assigns ghost(n_viter), ghost(viter_pos), ghost(viter_reg), ghost(n_val_write), ghost(n_wd_write), ghost(n_set_exit), ghost(set_exit_v), ghost(set_exit_val), ghost(n_set_wd), ghost(set_wd_v), ghost(set_wd_val)
 
 //@ func ProcessVoluntaryExits(ctx, spec, epc, state, ops) err
 //@   property C18
@@ -656,6 +723,6 @@ package phase0
 //@   loop *
 //@     invariant ctx_t >= old(ctx_t) && (old(ctx_seen) || !ctx_seen)
 //@     invariant ctx_t > old(ctx_t) ==> !ctx_cancelled(ctx, old(ctx_t))
-//@   assigns ghost(n_viter), ghost(viter_pos), ghost(viter_reg), ghost(n_val_write), ghost(n_set_exit), ghost(set_exit_v), ghost(set_exit_val), ghost(n_set_wd), ghost(set_wd_v), ghost(set_wd_val)
+//@   assigns ghost(n_viter), ghost(viter_pos), ghost(viter_reg), ghost(n_val_write), ghost(n_wd_write), ghost(n_set_exit), ghost(set_exit_v), ghost(set_exit_val), ghost(n_set_wd), ghost(set_wd_v), ghost(set_wd_val)
 
 // END C18 generated
